@@ -8,6 +8,7 @@ import (
 	"math"
 	"net/http"
 	"net/http/httptest"
+	"sync/atomic"
 	"time"
 
 	connect "github.com/bufbuild/connect-go"
@@ -651,6 +652,84 @@ func C01(r *h.Run) {
 						key = "roundtrip/request-direction"
 					}
 					r.Fail(h.Failure{Key: key, Family: "skip_reading", What: "a reader that calls Receive twice before Msg is shown another message than the one received last (a zero-valued message after a skipped non-zero one)", Input: in, Expected: hexList(want), Actual: hexList(looked)})
+				}
+			}
+		}
+	}
+
+	// ---- 3e. a request message the codec refuses to marshal: the client's call fails, and the
+	// handler's user code does not run on a message nobody sent ----
+	for _, proto := range protos {
+		for _, via := range []e2eTransport{viaLocal, viaHTTP1, viaHTTP2} {
+			for _, kind := range []string{"unary", "server"} {
+				var copts []connect.ClientOption
+				switch proto {
+				case "grpc":
+					copts = append(copts, connect.WithGRPC())
+				case "grpcweb":
+					copts = append(copts, connect.WithGRPCWeb())
+				}
+				copts = append(copts, connect.WithCodec(h.ToyCodec{}))
+				var ran atomic.Int64
+				var sawLen atomic.Int64
+				sawLen.Store(-1)
+				mux := http.NewServeMux()
+				mux.Handle("/verif.Svc/Unary", connect.NewUnaryHandler("/verif.Svc/Unary", func(_ context.Context, req *connect.Request[h.Raw]) (*connect.Response[h.Raw], error) {
+					ran.Add(1)
+					sawLen.Store(int64(len(req.Msg.B)))
+					return connect.NewResponse(&h.Raw{B: []byte("ok")}), nil
+				}, connect.WithCodec(h.ToyCodec{})))
+				mux.Handle("/verif.Svc/Server", connect.NewServerStreamHandler("/verif.Svc/Server", func(_ context.Context, req *connect.Request[h.Raw], st *connect.ServerStream[h.Raw]) error {
+					ran.Add(1)
+					sawLen.Store(int64(len(req.Msg.B)))
+					return st.Send(&h.Raw{B: []byte("ok")})
+				}, connect.WithCodec(h.ToyCodec{})))
+				var hc connect.HTTPClient = &h.LocalClient{Handler: mux}
+				base := "http://verif.local"
+				var srv *httptest.Server
+				if via != viaLocal {
+					srv = httptest.NewUnstartedServer(mux)
+					if via == viaHTTP2 {
+						srv.EnableHTTP2 = true
+						srv.StartTLS()
+					} else {
+						srv.Start()
+					}
+					hc, base = srv.Client(), srv.URL
+				}
+				bad := &h.Raw{B: []byte{0xEE, 0xEE, 0xEE}}
+				var callErr error
+				p := safely(func() {
+					if kind == "unary" {
+						_, callErr = connect.NewClient[h.Raw, h.Raw](hc, base+"/verif.Svc/Unary", copts...).CallUnary(context.Background(), connect.NewRequest(bad))
+					} else {
+						st, err := connect.NewClient[h.Raw, h.Raw](hc, base+"/verif.Svc/Server", copts...).CallServerStream(context.Background(), connect.NewRequest(bad))
+						callErr = err
+						if err == nil {
+							for st.Receive() {
+							}
+							callErr = st.Err()
+							_ = st.Close()
+						}
+					}
+				})
+				time.Sleep(20 * time.Millisecond) // (a handler started by a request in flight)
+				if srv != nil {
+					srv.Close()
+				}
+				in := map[string]any{"proto": proto, "kind": kind, "via": via, "request_message": "one the client's codec refuses to marshal"}
+				r.Eval("unmarshalable_request", fmt.Sprint(proto, kind, via))
+				r.Sample("unmarshalable_request", map[string]any{"in": in, "client_error": fmt.Sprint(callErr), "handler_user_code_ran": ran.Load()})
+				if p != nil {
+					r.Fail(h.Failure{Key: "roundtrip/panic-or-hang", Family: "unmarshalable_request", What: fmt.Sprint(p), Input: in})
+					continue
+				}
+				if callErr == nil {
+					r.Fail(h.Failure{Key: "roundtrip/request-direction", Family: "unmarshalable_request", What: "a call whose request message could not be marshalled succeeded", Input: in})
+				}
+				if ran.Load() > 0 {
+					key := "roundtrip/request-direction"
+					r.Fail(h.Failure{Key: key, Family: "unmarshalable_request", What: fmt.Sprintf("the client sent no message (marshalling failed), yet the handler's user code ran, on a message of %d bytes", sawLen.Load()), Input: in, Expected: "user code does not run", Actual: fmt.Sprint("ran ", ran.Load(), " time(s)")})
 				}
 			}
 		}
